@@ -1,4 +1,5 @@
 import MindsVerif.Lemmas.ModelJoinArgs
+import MindsVerif.Lemmas.ModelJoinFlow
 /-!
 # C14 — in a table–model join the model gets the right rows and arguments, only those
 
@@ -21,8 +22,11 @@ After the repairs 048b490, 1a1b62e, 9de9983, 8fa2a67, 34967fc the clauses hold w
 * T14.4  `C14_4_values_from_using`, `C14_4_last_wins`, `C14_4_unprefixed`, `C14_4_foreign_prefix`,
          `C14_4_own_prefix` (alias prefix in ANY case), `C14_4_partition_size_removed`
 * T14.5  `C14_5_sound`, `C14_5_complete`, `C14_5_neutralised`  — witnesses: model-first join, `>` mapped
-* T14.1  `C14_1_apply_input`, `C14_1_predictor_first` (local bookkeeping only; the global count is checked
-         by the correspondence and the impl-level probe, not proved)
+* T14.1  `C14_1` (GLOBAL: in every plan the modelled planner emits, the apply steps — also those inside
+         MapReduceSteps — are, up to order, exactly the model operands, one each (`C14_1_nodup`), and the input of
+         the apply step of operand `i` is built, by fetch / sub-select / apply / join steps, from exactly the
+         operands to its left, in join order), `C14_1_plan` (the same for `plan`), `C14_1_apply_input`,
+         `C14_1_predictor_first`
 
 `C14_partial : C14_full` — every clause of the statement holds for all inputs; what it does not cover is said there.
 -/
@@ -327,6 +331,32 @@ theorem C14_1_apply_input (ops : List Operand) (i : Nat) (w : Option E) (u : Opt
     injection h with h
     exact ⟨top, rest, hs, h.symm⟩
 
+/-- **T14.1 (global)**.  For every operand list, WHERE, USING and every plan `steps` the modelled planner
+produces (`planWith`: join sequence incl. the model-first swap, step stack, MapReduce partitions opened by
+`partition_size` and closed before non-partitionable steps / at the end):
+* the operands of the apply steps of the plan (top level and inside MapReduceSteps) are a permutation of
+  the indices of the model operands — and those are distinct (`C14_1_nodup`), so: exactly one apply step per
+  model reference;
+* the input reference of the apply step of operand `i` HOLDS `leftOf ops i` = `[0, …, i-1]` (`[1]` for
+  `model JOIN table`): following the plan's dataflow (`Holds`: fetch j ↦ [j], sub-select j ↦ [j],
+  apply j ↦ [j], join l r ↦ l ++ r, a MapReduceStep ↦ its last sub-step) it is the join of everything to the
+  left of the model, in order. -/
+theorem C14_1 (ops : List Operand) (w : Option E) (u : Option (List (String × String))) (k : Nat)
+    (steps : List Step) (h : planWith ops w u k = .ok steps) :
+    ((appliesOf steps).map (·.1)).Perm (modelIdx ops) ∧
+    ∀ ir ∈ appliesOf steps, isModAt ops ir.1 = true ∧ Holds steps ir.2 (leftOf ops ir.1) :=
+  planWith_flow ops w u k steps h
+
+theorem C14_1_nodup (ops : List Operand) : (modelIdx ops).Nodup := modelIdx_nodup ops
+
+/-- the same for `plan` (identifier rewriting changes only the ON conditions of the operands) -/
+theorem C14_1_plan (q : Query) (steps : List Step) (h : plan q = .ok steps) :
+    ∃ ops, rewriteOn q.ops q.ops = some ops ∧ ops.map (·.kind) = q.ops.map (·.kind) ∧
+      ((appliesOf steps).map (·.1)).Perm (modelIdx ops) ∧
+      ∀ ir ∈ appliesOf steps, isModAt ops ir.1 = true ∧ Holds steps ir.2 (leftOf ops ir.1) := by
+  obtain ⟨ops, w, h1, h2⟩ := plan_planWith q steps h
+  exact ⟨ops, h1, rewriteOn_kinds _ _ _ h1, planWith_flow ops w _ _ steps h2⟩
+
 /-- a model cannot be the first thing processed -/
 theorem C14_1_predictor_first (ops : List Operand) (i : Nat) (w : Option E) (u : Option (List (String × String)))
     (st : St) (h : st.stack = []) : processPredictor ops i w u st = .error .notImplemented := by
@@ -427,6 +457,10 @@ theorem C14_target_stays :
   decide
 
 /-! ## non-vacuity -/
+
+example : ∃ steps, planWith opsR none (some [("partition_size", "5")]) 0 = .ok steps ∧ appliesOf steps = [(2, .top 2)] ∧
+    modelIdx opsR = [2] ∧ leftOf opsR 2 = [0, 1] := by
+  refine ⟨_, rfl, ?_, ?_, ?_⟩ <;> decide
 
 example : consumed opsW 1 (some "y") mA1 = true := by decide
 example : ∃ val, ValOK val := ⟨val0, val0_ok⟩
